@@ -461,7 +461,16 @@ func runC01(r *common.Rand, tier string, o *common.Out, replay string) {
 	if tier == "thorough" {
 		n = 40000
 	}
+	defer delete(protocol.Compressors, protocol.CompressType(5))
 	for i := 0; i < n; i++ {
+		// the registry changes while traffic is flowing: a compressor is registered under type 5 after a third of the
+		// messages (compressed ones among them) have gone through the codec, and removed again after two thirds
+		if i == n/3 {
+			protocol.Compressors[protocol.CompressType(5)] = &protocol.SnappyCompressor{}
+		}
+		if i == 2*n/3 {
+			delete(protocol.Compressors, protocol.CompressType(5))
+		}
 		m := &c01msg{h: genHeader(r), meta: map[string]string{}}
 		switch r.Intn(10) {
 		case 0, 1, 2, 3:
@@ -471,7 +480,10 @@ func runC01(r *common.Rand, tier string, o *common.Out, replay string) {
 		case 7, 8:
 			setCompress(&m.h, 2)
 		default:
-			setCompress(&m.h, 3+r.Intn(5)) // unregistered
+			setCompress(&m.h, 3+r.Intn(5)) // unregistered (type 5: registered for the middle third)
+		}
+		if i >= n/3 && i < n/3+40 || i >= 2*n/3 && i < 2*n/3+40 {
+			setCompress(&m.h, 5) // right after the registry changed
 		}
 		big := r.Chance(3)
 		m.path, m.meth = genField(r, big), genField(r, false)
